@@ -9,7 +9,8 @@ REQUIRED_REACH = {'*': ['evictions', 'put_restore']}
 
 
 def _tweak(pf, rng):
-    pf.weights = {'add_app': 16, 'prio': 6, 'regroup': 3, 'group': 4}
+    pf.weights = {'add_app': 16, 'prio': 6, 'regroup': 3, 'group': 4, 'valid_until': 5}
+    pf.p_lease = 0.5
     pf.p_identity = 0.5
 
 
